@@ -172,16 +172,18 @@ def check_structure(nf, nm, restr, fmt="tuples"):
                     ok_rows = False
                 else:
                     dmap[(fi[0], mj[0])] = d
-        if unres and (not stub.calls or not ok_rows or any((i, j) not in dmap for i in unres for j in range(nm))):
-            fails.append(ob(f"{tag}/callsite.distances_between_unrestrained_fixed_atoms_and_evaluated_mobile_atoms/{sid}", "refuted",
-                            engine="symrun", backend="callsite", cex=dict(cex0, signature="cdist-args")))
-            break
+        mapped = not unres or (bool(stub.calls) and ok_rows and all((i, j) in dmap for i in unres for j in range(nm)))
+        if not mapped:
+            # the code asked for other distances than (unrestrained fixed atoms x evaluated mobile atoms): that is an implementation
+            # choice, not a property clause -- fall back to the polynomial form of the squared distances (harder VCs, may be undecided)
+            dmap = {(i, j): sq(F_(i), ME(j)) for i in range(nf) for j in range(nm)}
+            hy = hy + stub.defs
         refv = reference_value(nf, nm, restr, lambda i, j: dmap[(i, j)])
         cexb = lambda m_: dict(cex0, signature="value", model={k_: v_ for k_, v_ in m_.items() if k_.startswith(("f_", "me_", "mc_"))})
         vt = S.T(v)
         # proof scripting: only the hypotheses over the distance symbols are needed (path conditions, d >= 0, no ties);
         # the defining equalities d_ij = |a_i - b_j|^2 are nonlinear and irrelevant here
-        lin = [h for h in hy if all(k_.startswith("sqd!") for k_ in core.free_consts(h))]
+        lin = [h for h in hy if all(k_.startswith("sqd!") for k_ in core.free_consts(h))] if mapped else hy
         o = discharge(f"{tag}/ensures.equals_reference_definition/{sid}/path{pi}", lin, vt == refv, backends=("z3",), timeout_ms=10000,
                       cex_builder=cexb, full_hyps=hy)
         n_vc += 1
